@@ -2,6 +2,7 @@ mod big;
 mod checks;
 mod deploy;
 mod engine;
+mod grid;
 mod helpers;
 mod refmath;
 mod scn_pair;
@@ -30,6 +31,7 @@ fn main() {
             }
             let code = match id {
                 "C01" => checks::c01::run(&tier, seed),
+                "C02" => checks::c02::run(&tier, seed),
                 _ => {
                     eprintln!("unknown property {id}");
                     2
@@ -43,6 +45,7 @@ fn main() {
             let prop = doc["property"].as_str().unwrap_or("").to_string();
             let ok = match prop.as_str() {
                 "C01" => checks::c01::replay(&doc),
+                "C02" => checks::c02::replay(&doc),
                 _ => {
                     eprintln!("unknown property in replay file");
                     std::process::exit(2)
